@@ -223,6 +223,11 @@ def _post(backend, prop):
         n = S.out_n
         hier = S.eng.hier
         if o.kind in ('normal', 'return'):
+            if prop == 'C06':
+                # never silently truncated: a normal end before the source is exhausted is only the answer to the consumer's own
+                # close() (ghost flag set where the engine injects that GeneratorExit) -- not to an exception of user code
+                return [('C06:a-normal-end-delivers-every-source-element-unless-the-consumer-closed',
+                         z3.Or(z3.BoolVal('consumer_closed' in S.st.ghost), n == SRCN))]
             return [('C04:end-after-all-source-elements', n == SRCN if prop == 'C04' else smt.T)]
         if o.kind == 'raise':
             e = o.exc.t
@@ -240,6 +245,9 @@ def _post(backend, prop):
                 stopped = z3.ForAll([t], z3.Implies(z3.And(t >= head, t < tail), z3.Select(canc, z3.Select(arr, t))),
                                     patterns=[z3.Select(arr, t)])
             is_exit = smt.SUB(smt.CLS(e), hier.const('GeneratorExit'))
+            if prop == 'C06':
+                cc = S.st.ghost.get('consumer_closed')
+                is_exit = (e == cc.t) if cc is not None else smt.F       # the consumer's own close, re-raised
             env_guard = z3.And(smt.SUB(smt.CLS(e), hier.const('OSError')), n == 0)
             pre = z3.And(smt.SUB(smt.CLS(e), hier.const('AssertionError')), n == 0)
             fail_f = z3.And(n < SRCN, z3.Not(SRC_R(n)), smt.APP_R(f, SRC_V(n)), e == smt.APP_E(f, SRC_V(n)))
